@@ -5,7 +5,7 @@ LEVEL = "model_checking"
 
 
 def scenarios(tier, seed):
-    return fam_expr.family_E(tier, seed) + fam_expr.family_S(tier, seed) + fam_expr.family_Q(tier, seed) + fam_expr.family_Wd(tier, seed)
+    return fam_expr.family_E(tier, seed) + fam_expr.family_S(tier, seed) + fam_expr.family_Q(tier, seed) + fam_expr.family_Wd(tier, seed) + fam_expr.family_G(tier, seed) + fam_expr.family_K(tier, seed)
 
 
 def run(tier, seed, limit=0):
